@@ -548,6 +548,57 @@ fn fault_enumeration(rep: &mut Rep, seed: u64, n_hist: usize, max_positions_per_
             let mut after = m.clone();
             apply_model(&mut after, &ops[j]);
             let targets = ops[j].targets(before.mark);
+            // every other position: the caller repeats the refused call (faults are off now). If the repetition is
+            // acknowledged, everything about it must be there after flush + reopen, root included: the first
+            // attempt may have left any part of its writes behind.
+            // (an append is not repeated: whether the refused attempt already took the slot is not defined, so a
+            // repetition may legitimately land one position further)
+            if k % 2 == 1 && !matches!(ops[j], POp::Flush | POp::Append(_)) {
+                let rr = apply(&mut r, depth, &ops[j]);
+                let fl = apply(&mut r, depth, &POp::Flush);
+                if matches!(rr, Ok(Ok(()))) && matches!(fl, Ok(Ok(()))) {
+                    drop(r);
+                    rep.ev();
+                    rep.stratum(format!("fault-then-retry|{}|d{depth}|offset-in-call={}", ops[j].kind(), (k - spans[j].0).min(25)));
+                    match open(depth, &path, variant) {
+                        Ok(mut r2) => {
+                            let pos = watch(&after, &targets);
+                            match observe(&mut r2, &pos) {
+                                Ok(o) => {
+                                    let wrong: Vec<usize> = o.leaves.iter().filter(|(p, v)| *v != Some(after.get(*p))).map(|x| x.0).take(5).collect();
+                                    if !wrong.is_empty() {
+                                        rep.violation(format!("retry-after-fault-in-{}:acknowledged-leaf-lost", ops[j].kind()), json!({"history": done, "storage_op": k, "positions": wrong, "depth": depth}));
+                                    }
+                                    if o.count != after.mark {
+                                        // the one storage write that persists a raised leaf count is the last one of its call
+                                        let at_count_persist = k + 1 == spans[j].1 && after.mark > before.mark && o.count == before.mark;
+                                        let sig = if at_count_persist {
+                                            format!("retry-after-fault-at-leaf-count-persist:{}:acknowledged-leaf-count-lost", ops[j].kind())
+                                        } else {
+                                            format!("retry-after-fault-in-{}:leaf-count-differs", ops[j].kind())
+                                        };
+                                        rep.violation(sig, json!({"history": done, "storage_op": k, "offset_in_call": k - spans[j].0, "reopened_count": o.count, "model_count": after.mark, "count_before_the_call": before.mark}));
+                                    }
+                                    if o.meta != after.metadata {
+                                        rep.violation(format!("retry-after-fault-in-{}:metadata-differs", ops[j].kind()), json!({"history": done, "storage_op": k}));
+                                    }
+                                    if wrong.is_empty() && o.count == after.mark && o.root != after.root() {
+                                        rep.violation(format!("retry-after-fault-in-{}:root-differs", ops[j].kind()), json!({"history": done, "storage_op": k, "offset_in_call": k - spans[j].0, "depth": depth, "reopened_root": fr_s(&o.root), "model_root": fr_s(&after.root())}));
+                                    }
+                                    rep.count("post_retry_reopens_checked");
+                                }
+                                Err(p) => rep.violation(format!("after-fault:observer-panic:{}", p.file()), json!({"history": done, "panic": p.msg})),
+                            }
+                        }
+                        Err(e) => rep.violation("after-fault:reopen-failed", json!({"history": done, "storage_op": k, "error": e})),
+                    }
+                } else {
+                    rep.count("retry_after_fault_not_acknowledged");
+                    drop(r);
+                }
+                let _ = std::fs::remove_dir_all(&base);
+                continue;
+            }
             // disarm -> flush -> drop -> reopen
             let fl = apply(&mut r, depth, &POp::Flush);
             if !matches!(fl, Ok(Ok(()))) {
